@@ -30,7 +30,12 @@
    row was partitioned into at fit time), ProofsMonotone (two split searches that agree up to the value
    of the threshold grow the same tree up to threshold values, with the same partition of the training
    rows) + ProofsMonotoneReg (regression tree over exact reals: feature columns transformed by strictly
-   increasing maps). *)
+   increasing maps), ProofsFloat (binary64 rounding: the threshold (xi + px)/2 is the correctly rounded real
+   midpoint; when it separates the two values; the binary64 partition equals the exact-midpoint partition;
+   sweep invariant "thresholds are midpoints of consecutive counted values"; every internal node of a tree
+   grown in binary64) + ProofsFloatFit (the same for DecisionTree{Regressor,Classifier}::fit under the
+   executable test orders_okb) + ProofsFloatSum (rounding bounds of the sweep's running sum, the true-child
+   mean and the root mean). *)
 From Coq Require Import List Arith ZArith Bool Reals Lra Floats Lia.
 From SC Require Import Base.Num C05.Model C05.ProofsGrow C05.ProofsReg C05.ProofsCls C05.ProofsSort
                        C05.ProofsSorted C05.ProofsEndToEnd C05.ProofsGrowFull C05.ProofsOpt C05.ProofsOptCls C05.ProofsPure
@@ -1034,4 +1039,362 @@ Example C05_pow2_scalable_instance :
 Proof.
   repeat (apply Forall_cons || apply Forall_nil);
     first [apply pow2_scalable_zero | apply pow2_scalable_pow2; lia].
+Qed.
+
+(* ------------------------------------------------------------------------------------------
+   ROUNDING theorems (C05/ProofsFloat.v): the BINARY64 instance FOps of the split threshold
+   (xi + px) / 2 and of the row partition it induces, proved through Flocq's PrimFloat bridge.
+   FR x is the real value of a float, ffin x = finite, rnd64 = rounding to nearest-even in the
+   binary64 format (Base/FloatError.v); RX x = map (map FR) x.  The only no-overflow hypothesis is
+   that the SUM of the two values is finite.  `mid_of_rows x s f t i0 i` (C05/ProofsFloat.v): rows
+   i0, i are counted by s, hold consecutive distinct values a < b of feature f among the rows counted
+   by s, and t is the model's expression (b + a) / 2 evaluated in binary64.
+   ------------------------------------------------------------------------------------------ *)
+From SC Require Base.FloatUtil Base.FloatError C05.ProofsFloat.
+
+(* target 1: the computed threshold is the correctly rounded real midpoint, hence between a and b *)
+Theorem C05_midpoint_float_between : forall a b : PrimFloat.float,
+  FloatError.ffin a -> FloatError.ffin b -> FloatError.ffin (b + a)%float ->
+  (FloatError.FR a <= FloatError.FR b)%R ->
+  let t := odiv FOps (oadd FOps b a) (oofZ FOps 2) in
+  FloatError.ffin t /\
+  FloatError.FR t = FloatError.rnd64 ((FloatError.FR a + FloatError.FR b) / 2)%R /\
+  (FloatError.FR a <= FloatError.FR t <= FloatError.FR b)%R.
+Proof. exact C05.ProofsFloat.midpoint_float_between. Qed.
+
+(* target 2: a < t < b iff a binary64 number lies strictly between; otherwise t is a or b; a always passes
+   the test x <= t, b passes it iff t = b *)
+Theorem C05_midpoint_float_separates : forall a b : PrimFloat.float,
+  FloatError.ffin a -> FloatError.ffin b -> FloatError.ffin (b + a)%float ->
+  (FloatError.FR a < FloatError.FR b)%R ->
+  let t := odiv FOps (oadd FOps b a) (oofZ FOps 2) in
+  ((exists c : PrimFloat.float, (FloatError.FR a < FloatError.FR c < FloatError.FR b)%R) <->
+   (FloatError.FR a < FloatError.FR t < FloatError.FR b)%R) /\
+  ((forall c : PrimFloat.float, ~ (FloatError.FR a < FloatError.FR c < FloatError.FR b)%R) ->
+   FloatError.FR t = FloatError.FR a \/ FloatError.FR t = FloatError.FR b) /\
+  oleb FOps a t = true /\
+  (oleb FOps b t = true <-> FloatError.FR t = FloatError.FR b).
+Proof. exact C05.ProofsFloat.midpoint_float_separates. Qed.
+
+(* adjacent floats whose tie rounds up to b: the split x <= t does not separate them *)
+Example C05_midpoint_adjacent_rounds_up :
+  let a := 0x1.0000000000001p+0%float in let b := 0x1.0000000000002p+0%float in
+  PrimFloat.ltb a b = true /\ odiv FOps (oadd FOps b a) (oofZ FOps 2) = b /\
+  oleb FOps b (odiv FOps (oadd FOps b a) (oofZ FOps 2)) = true.
+Proof. vm_compute. repeat split. Qed.
+(* adjacent floats whose tie rounds down to a: still separated *)
+Example C05_midpoint_adjacent_rounds_down :
+  let a := 1%float in let b := 0x1.0000000000001p+0%float in
+  PrimFloat.ltb a b = true /\ odiv FOps (oadd FOps b a) (oofZ FOps 2) = a /\
+  oleb FOps b (odiv FOps (oadd FOps b a) (oofZ FOps 2)) = false.
+Proof. vm_compute. repeat split. Qed.
+(* the subnormal corner (halving inexact) and the excluded overflow of the sum *)
+Example C05_midpoint_subnormal_and_overflow :
+  odiv FOps (oadd FOps 0x1p-1073%float 0x1p-1074%float) (oofZ FOps 2) = 0x1p-1073%float /\
+  odiv FOps (oadd FOps 0x1p-1074%float 0%float) (oofZ FOps 2) = 0%float /\
+  PrimFloat.is_finite 0x1.fffffffffffffp+1023%float = true /\
+  PrimFloat.is_finite (odiv FOps (oadd FOps 0x1.fffffffffffffp+1023%float 0x1.fffffffffffffp+1023%float)
+                                 (oofZ FOps 2)) = false.
+Proof. vm_compute. repeat split. Qed.
+
+(* target 3: for a < b consecutive among the counted rows, if t < b the binary64 partition is the
+   exact-arithmetic partition at the real midpoint *)
+Theorem C05_partition_float_consistent :
+  forall (x : list (list PrimFloat.float)) (samples : list nat) (feat : nat) (a b : PrimFloat.float),
+  Forall (Forall FloatError.ffin) x ->
+  FloatError.ffin a -> FloatError.ffin b -> FloatError.ffin (b + a)%float ->
+  (FloatError.FR a < FloatError.FR b)%R ->
+  (forall i, i < length x -> 0 < nth i samples 0 ->
+     (FloatError.FR (getx FOps x i feat) <= FloatError.FR a)%R \/
+     (FloatError.FR b <= FloatError.FR (getx FOps x i feat))%R) ->
+  let t := odiv FOps (oadd FOps b a) (oofZ FOps 2) in
+  (FloatError.FR t < FloatError.FR b)%R ->
+  true_part FOps x samples feat (Some t) =
+    true_part ROps (C05.ProofsFloat.RX x) samples feat (Some ((FloatError.FR a + FloatError.FR b) / 2)%R) /\
+  false_part FOps x samples feat (Some t) =
+    false_part ROps (C05.ProofsFloat.RX x) samples feat (Some ((FloatError.FR a + FloatError.FR b) / 2)%R).
+Proof. exact C05.ProofsFloat.partition_float_consistent. Qed.
+
+(* ... in particular when a and b are not adjacent binary64 numbers *)
+Theorem C05_partition_float_consistent_nonadjacent :
+  forall (x : list (list PrimFloat.float)) (samples : list nat) (feat : nat) (a b : PrimFloat.float),
+  Forall (Forall FloatError.ffin) x ->
+  FloatError.ffin a -> FloatError.ffin b -> FloatError.ffin (b + a)%float ->
+  (FloatError.FR a < FloatError.FR b)%R ->
+  (forall i, i < length x -> 0 < nth i samples 0 ->
+     (FloatError.FR (getx FOps x i feat) <= FloatError.FR a)%R \/
+     (FloatError.FR b <= FloatError.FR (getx FOps x i feat))%R) ->
+  (exists c : PrimFloat.float, (FloatError.FR a < FloatError.FR c < FloatError.FR b)%R) ->
+  let t := odiv FOps (oadd FOps b a) (oofZ FOps 2) in
+  true_part FOps x samples feat (Some t) =
+    true_part ROps (C05.ProofsFloat.RX x) samples feat (Some ((FloatError.FR a + FloatError.FR b) / 2)%R) /\
+  false_part FOps x samples feat (Some t) =
+    false_part ROps (C05.ProofsFloat.RX x) samples feat (Some ((FloatError.FR a + FloatError.FR b) / 2)%R).
+Proof. exact C05.ProofsFloat.partition_float_consistent_nonadjacent. Qed.
+
+(* and the mechanism of the tie defects: if t = b, a counted row holding b goes to the TRUE child in
+   binary64 and to the FALSE child in exact arithmetic *)
+Theorem C05_partition_float_differs_when_rounds_up :
+  forall (x : list (list PrimFloat.float)) (samples : list nat) (feat : nat) (a b : PrimFloat.float),
+  Forall (Forall FloatError.ffin) x ->
+  FloatError.ffin a -> FloatError.ffin b -> FloatError.ffin (b + a)%float ->
+  (FloatError.FR a < FloatError.FR b)%R ->
+  let t := odiv FOps (oadd FOps b a) (oofZ FOps 2) in
+  FloatError.FR t = FloatError.FR b ->
+  forall i, 0 < nth i samples 0 -> FloatError.FR (getx FOps x i feat) = FloatError.FR b ->
+  goes_true FOps x samples feat (Some t) i = true /\
+  goes_true ROps (C05.ProofsFloat.RX x) samples feat (Some ((FloatError.FR a + FloatError.FR b) / 2)%R) i = false.
+Proof. exact C05.ProofsFloat.partition_float_differs_when_rounds_up. Qed.
+
+(* the thresholds returned by the two split searches in binary64 are such midpoints *)
+Theorem C05_regressor_thresholds_are_float_midpoints :
+  forall (x : list (list PrimFloat.float)) (y : list PrimFloat.float) order msl mss vars,
+  Forall (Forall FloatError.ffin) x ->
+  (forall (id j : nat), In j (vars id) -> sorted_order (C05.ProofsFloat.RX x) j (nth j order [])) ->
+  forall id out s c, reg_find FOps x y order msl mss vars id out s = Some c ->
+  exists i0 i, C05.ProofsFloat.mid_of_rows x s (c_feat c) (c_val c) i0 i.
+Proof. exact C05.ProofsFloat.reg_find_mid. Qed.
+
+Theorem C05_classifier_thresholds_are_float_midpoints :
+  forall lg2 crit (x : list (list PrimFloat.float)) yi k order msl mss vars,
+  Forall (Forall FloatError.ffin) x ->
+  (forall (id j : nat), In j (vars id) -> sorted_order (C05.ProofsFloat.RX x) j (nth j order [])) ->
+  forall id out s c, cls_find FOps lg2 crit x yi k order msl mss vars id out s = Some c ->
+  exists i0 i, C05.ProofsFloat.mid_of_rows x s (c_feat c) (c_val c) i0 i.
+Proof. exact C05.ProofsFloat.cls_find_mid. Qed.
+
+(* what `mid_of_rows` says, spelled out *)
+Theorem C05_mid_of_rows_meaning : forall x s f t i0 i,
+  C05.ProofsFloat.mid_of_rows x s f t i0 i <->
+  (i0 < length x /\ i < length x /\ 0 < nth i0 s 0 /\ 0 < nth i s 0 /\
+   t = odiv FOps (oadd FOps (getx FOps x i f) (getx FOps x i0 f)) (oofZ FOps 2) /\
+   (FloatError.FR (getx FOps x i0 f) < FloatError.FR (getx FOps x i f))%R /\
+   (forall r, r < length x -> 0 < nth r s 0 ->
+      (FloatError.FR (getx FOps x r f) <= FloatError.FR (getx FOps x i0 f))%R \/
+      (FloatError.FR (getx FOps x i f) <= FloatError.FR (getx FOps x r f))%R)).
+Proof. intros. reflexivity. Qed.
+
+(* every internal node of a tree grown in binary64 hands its children the rows that the exact test at
+   the real midpoint of two consecutive counted values sends them, when the threshold is below the larger
+   value (always the case when the two values are not adjacent binary64 numbers) *)
+Theorem C05_grown_tree_float_partition :
+  forall A (a0 : A) (x : list (list PrimFloat.float)) msl
+         (find : nat -> A -> list nat -> option (cand PrimFloat.float A)) root samples md nodes d,
+  Forall (Forall FloatError.ffin) x ->
+  (forall id out s c, find id out s = Some c ->
+     exists i0 i, C05.ProofsFloat.mid_of_rows x s (c_feat c) (c_val c) i0 i) ->
+  grow_tree FOps a0 x msl find root samples md = Some (nodes, d) ->
+  exists G D, tree_consistent FOps a0 x msl (fun _ _ => True) samples nodes G D /\
+    forall n, n < length nodes -> leafb (nth n nodes (dnode a0)) = false ->
+      let nd := nth n nodes (dnode a0) in
+      exists t i0 i tc,
+        split_value nd = Some t /\ true_child nd = Some tc /\ false_child nd = Some (S tc) /\
+        G tc = true_part FOps x (G n) (split_feature nd) (Some t) /\
+        G (S tc) = false_part FOps x (G n) (split_feature nd) (Some t) /\
+        C05.ProofsFloat.mid_of_rows x (G n) (split_feature nd) t i0 i /\
+        let a := getx FOps x i0 (split_feature nd) in
+        let b := getx FOps x i (split_feature nd) in
+        (FloatError.ffin (b + a)%float ->
+         (FloatError.FR a <= FloatError.FR t <= FloatError.FR b)%R /\
+         ((exists c : PrimFloat.float, (FloatError.FR a < FloatError.FR c < FloatError.FR b)%R) ->
+          (FloatError.FR a < FloatError.FR t < FloatError.FR b)%R) /\
+         ((FloatError.FR t < FloatError.FR b)%R ->
+          G tc = true_part ROps (C05.ProofsFloat.RX x) (G n) (split_feature nd)
+                           (Some ((FloatError.FR a + FloatError.FR b) / 2)%R) /\
+          G (S tc) = false_part ROps (C05.ProofsFloat.RX x) (G n) (split_feature nd)
+                                (Some ((FloatError.FR a + FloatError.FR b) / 2)%R))).
+Proof. exact @C05.ProofsFloat.grown_tree_float_partition. Qed.
+
+(* the hypotheses of C05_partition_float_consistent (and of the sweep / tree theorems) are satisfiable:
+   the column 1, 2, 4, the consecutive values a = 2 < b = 4, threshold 3 < 4; the order 0,1,2 sorts it *)
+Example C05_partition_float_instance :
+  let x := [[FloatUtil.float_of_Z 1]; [FloatUtil.float_of_Z 2]; [FloatUtil.float_of_Z 4]] in
+  let a := FloatUtil.float_of_Z 2 in let b := FloatUtil.float_of_Z 4 in
+  Forall (Forall FloatError.ffin) x /\ FloatError.ffin a /\ FloatError.ffin b /\ FloatError.ffin (b + a)%float /\
+  (FloatError.FR a < FloatError.FR b)%R /\
+  (forall i, i < length x -> 0 < nth i [1; 1; 1] 0 ->
+     (FloatError.FR (getx FOps x i 0) <= FloatError.FR a)%R \/ (FloatError.FR b <= FloatError.FR (getx FOps x i 0))%R) /\
+  (FloatError.FR (odiv FOps (oadd FOps b a) (oofZ FOps 2)) < FloatError.FR b)%R /\
+  sorted_order (C05.ProofsFloat.RX x) 0 [0; 1; 2].
+Proof.
+  assert (F : forall z, (0 <= z < 2 ^ 53)%Z -> FloatError.FR (FloatUtil.float_of_Z z) = IZR z)
+    by exact C05.ProofsFloat.FR_ofZ.
+  cbv zeta. split; [repeat constructor|]. do 3 (split; [vm_compute; reflexivity|]).
+  split; [rewrite !F by lia; lra|]. split; [|split].
+  - intros i Hi _. cbn [length] in Hi.
+    destruct i as [|[|[|i]]]; try lia; unfold getx; cbn [nth]; rewrite !F by lia; [left|left|right]; lra.
+  - change (odiv FOps (oadd FOps (FloatUtil.float_of_Z 4) (FloatUtil.float_of_Z 2)) (oofZ FOps 2)) with (FloatUtil.float_of_Z 3).
+    rewrite !F by lia. lra.
+  - split; [apply Permutation.Permutation_refl|].
+    repeat constructor; rewrite !C05.ProofsFloat.X_RX; unfold getx; cbn [nth]; rewrite !F by lia; lra.
+Qed.
+
+(* a tree grown in binary64 with an internal node: hypothesis `grow_tree ... = Some` with a non-leaf root *)
+Example C05_grown_tree_float_instance :
+  let x := [[FloatUtil.float_of_Z 1]; [FloatUtil.float_of_Z 2]; [FloatUtil.float_of_Z 4]] in
+  let y := [FloatUtil.float_of_Z 0; FloatUtil.float_of_Z 0; FloatUtil.float_of_Z 5] in
+  exists nodes d,
+    grow_tree FOps 0%float x 1 (reg_find FOps x y [[0; 1; 2]] 1 2 (fun _ => [0])) (FloatUtil.float_of_Z 1) [1; 1; 1] None
+      = Some (nodes, d) /\
+    leafb (nth 0 nodes (dnode 0%float)) = false /\ split_value (nth 0 nodes (dnode 0%float)) = Some (FloatUtil.float_of_Z 3).
+Proof. cbv zeta. eexists. eexists. split; [vm_compute; reflexivity|]. split; vm_compute; reflexivity. Qed.
+
+(* ------------------------------------------------------------------------------------------
+   ... carried to DecisionTreeRegressor::fit / DecisionTreeClassifier::fit in binary64
+   (C05/ProofsFloatFit.v).  The hypothesis on the orders is now the EXECUTABLE test `orders_okb x` of
+   C05/Corr.v — the one the correspondence check evaluates in Coq on every whole-tree case: the index
+   vectors the model's quick_argsort returns at FOps are permutations whose consecutive entries are
+   ordered by the binary64 `<=`.  `float_tree_partition a0 x msl samples nodes` is, verbatim, the
+   conclusion of C05_grown_tree_float_partition (C05_float_tree_partition_meaning).
+   ------------------------------------------------------------------------------------------ *)
+From SC Require C05.Corr C05.ProofsFloatFit.
+
+Theorem C05_orders_okb_sorted : forall (x : list (list PrimFloat.float)) order,
+  Forall (Forall FloatError.ffin) x -> C05.Corr.orders_okb x = true ->
+  argsort_columns FOps x (length (hd [] x)) = Some order ->
+  forall j, j < length (hd [] x) -> sorted_order (C05.ProofsFloat.RX x) j (nth j order []).
+Proof. exact C05.ProofsFloatFit.orders_okb_sorted. Qed.
+
+Theorem C05_float_tree_partition_meaning :
+  forall A (a0 : A) (x : list (list PrimFloat.float)) msl samples (nodes : list (node PrimFloat.float A)),
+  C05.ProofsFloatFit.float_tree_partition a0 x msl samples nodes <->
+  exists G D, tree_consistent FOps a0 x msl (fun _ _ => True) samples nodes G D /\
+    forall n, n < length nodes -> leafb (nth n nodes (dnode a0)) = false ->
+      let nd := nth n nodes (dnode a0) in
+      exists t i0 i tc,
+        split_value nd = Some t /\ true_child nd = Some tc /\ false_child nd = Some (S tc) /\
+        G tc = true_part FOps x (G n) (split_feature nd) (Some t) /\
+        G (S tc) = false_part FOps x (G n) (split_feature nd) (Some t) /\
+        C05.ProofsFloat.mid_of_rows x (G n) (split_feature nd) t i0 i /\
+        let a := getx FOps x i0 (split_feature nd) in
+        let b := getx FOps x i (split_feature nd) in
+        (FloatError.ffin (b + a)%float ->
+         (FloatError.FR a <= FloatError.FR t <= FloatError.FR b)%R /\
+         ((exists c : PrimFloat.float, (FloatError.FR a < FloatError.FR c < FloatError.FR b)%R) ->
+          (FloatError.FR a < FloatError.FR t < FloatError.FR b)%R) /\
+         ((FloatError.FR t < FloatError.FR b)%R ->
+          G tc = true_part ROps (C05.ProofsFloat.RX x) (G n) (split_feature nd)
+                           (Some ((FloatError.FR a + FloatError.FR b) / 2)%R) /\
+          G (S tc) = false_part ROps (C05.ProofsFloat.RX x) (G n) (split_feature nd)
+                                (Some ((FloatError.FR a + FloatError.FR b) / 2)%R))).
+Proof. intros. reflexivity. Qed.
+
+Theorem C05_fit_regressor_float_partition :
+  forall (x : list (list PrimFloat.float)) (y : list PrimFloat.float) md msl mss nodes d,
+  Forall (Forall FloatError.ffin) x -> C05.Corr.orders_okb x = true ->
+  fit_regressor FOps x y md msl mss = Some (nodes, d) ->
+  C05.ProofsFloatFit.float_tree_partition 0%float x msl (repeat 1 (length x)) nodes.
+Proof. exact C05.ProofsFloatFit.fit_regressor_float_partition. Qed.
+
+Theorem C05_fit_classifier_float_partition :
+  forall lg2 crit (x : list (list PrimFloat.float)) (y : list PrimFloat.float) md msl mss classes nodes d,
+  Forall (Forall FloatError.ffin) x -> C05.Corr.orders_okb x = true ->
+  fit_classifier FOps lg2 crit x y md msl mss = Some (classes, nodes, d) ->
+  C05.ProofsFloatFit.float_tree_partition 0 x msl (repeat 1 (length x)) nodes.
+Proof. exact C05.ProofsFloatFit.fit_classifier_float_partition. Qed.
+
+(* the hypotheses are satisfiable: a fit in binary64 on finite data whose orders pass the test, with an
+   internal node (threshold 0x1.8p+1 = 3 between the feature values 2 and 4) *)
+Example C05_fit_float_partition_instance :
+  let x := [[1; 7]; [4; 5]; [2; 6]; [8; 0.5]]%float in
+  let y := [0; 5; 0; 6]%float in
+  Forall (Forall FloatError.ffin) x /\ C05.Corr.orders_okb x = true /\
+  exists nodes d, fit_regressor FOps x y None 1 2 = Some (nodes, d) /\
+                  leafb (nth 0 nodes (dnode 0%float)) = false /\
+                  split_value (nth 0 nodes (dnode 0%float)) = Some 0x1.8p+1%float /\
+  exists cl cn cd, fit_classifier FOps (fun v => v) Gini x y None 1 2 = Some (cl, cn, cd) /\
+                   leafb (nth 0 cn (dnode 0)) = false.
+Proof.
+  cbv zeta. split; [repeat constructor|]. split; [vm_compute; reflexivity|].
+  eexists. eexists. split; [vm_compute; reflexivity|]. split; [vm_compute; reflexivity|].
+  split; [vm_compute; reflexivity|].
+  eexists. eexists. eexists. split; vm_compute; reflexivity.
+Qed.
+
+(* ------------------------------------------------------------------------------------------
+   Rounding bounds for the running sums and means of the regression tree in binary64
+   (C05/ProofsFloatSum.v).  Counts are natural numbers in the model, hence exact; they enter the
+   arithmetic through `ofn`, exact below 2^53.  wy_term y s i = ofn (s_i) * y_i in binary64,
+   wy_exact y s i = s_i * FR y_i, wsum s rows = sum of the s_i, counted s pre = the rows of pre with
+   s_i > 0, FloatError.fsum = the left-to-right binary64 sum from 0.  u64 = 2^-53, eta64 = 2^-1075,
+   Eu m = (1+u64)^m - 1.  The only no-overflow hypothesis is that the computed mean is finite.
+   Not bounded: the false-child mean (it subtracts from the parent's ROUNDED output times n), the gains.
+   ------------------------------------------------------------------------------------------ *)
+From SC Require C05.ProofsFloatSum.
+
+Theorem C05_count_conversion_exact : forall n, (Z.of_nat n < 2 ^ 53)%Z ->
+  FloatError.ffin (ofn FOps n) /\ FloatError.FR (ofn FOps n) = INR n.
+Proof. exact C05.ProofsFloatSum.ofn_exact. Qed.
+
+(* a weighted sum of m rounded products, accumulated left to right, divided by the exact count *)
+Theorem C05_weighted_mean_float_error : forall (y : list PrimFloat.float) (s : list nat) (rows : list nat),
+  let W := C05.ProofsFloatSum.wsum s rows in
+  (forall i, In i rows -> (Z.of_nat (nth i s 0%nat) < 2 ^ 53)%Z) -> (Z.of_nat W < 2 ^ 53)%Z -> 0 < W ->
+  let q := odiv FOps (FloatError.fsum (map (C05.ProofsFloatSum.wy_term y s) rows)) (ofn FOps W) in
+  FloatError.ffin q ->
+  let S := FloatError.Rsuml (map (C05.ProofsFloatSum.wy_exact y s) rows) in
+  let Sabs := FloatError.Rsumabs (map (C05.ProofsFloatSum.wy_exact y s) rows) in
+  let m := length rows in
+  let E := (FloatError.Eu m * (Sabs + INR m * FloatError.eta64) + INR m * FloatError.eta64)%R in
+  FloatError.ffin (FloatError.fsum (map (C05.ProofsFloatSum.wy_term y s) rows)) /\
+  (Rabs (FloatError.FR (FloatError.fsum (map (C05.ProofsFloatSum.wy_term y s) rows)) - S) <= E)%R /\
+  (Rabs (FloatError.FR q - S / INR W) <= (FloatError.u64 * (Sabs + E) + E) / INR W + FloatError.eta64)%R.
+Proof. exact C05.ProofsFloatSum.wmean_float_error. Qed.
+
+(* the state of the regression sweep after any prefix of the visiting order *)
+Theorem C05_regression_sweep_state : forall x (y : list PrimFloat.float) msl s n sum pg j pre st,
+  let st' := fold_left (reg_step FOps x y msl s n sum pg j) pre st in
+  rs_sum st' = fold_left PrimFloat.add (map (C05.ProofsFloatSum.wy_term y s) (C05.ProofsFloatSum.counted s pre)) (rs_sum st) /\
+  rs_cnt st' = rs_cnt st + C05.ProofsFloatSum.wsum s (C05.ProofsFloatSum.counted s pre).
+Proof. exact C05.ProofsFloatSum.reg_sweep_state. Qed.
+
+(* the outputs a freshly created candidate carries are the two quotients of that state *)
+Theorem C05_regression_candidate_outputs : forall x (y : list PrimFloat.float) msl s n sum pg j st i c,
+  rs_best (reg_step FOps x y msl s n sum pg j st i) = Some c -> rs_best st <> Some c ->
+  c_tco c = odiv FOps (rs_sum st) (ofn FOps (rs_cnt st)) /\
+  c_fco c = odiv FOps (osub FOps sum (rs_sum st)) (ofn FOps (n - rs_cnt st)).
+Proof. exact C05.ProofsFloatSum.reg_step_outputs. Qed.
+
+(* hence the true-child mean *)
+Theorem C05_regression_true_mean_float_error : forall x (y : list PrimFloat.float) msl s n sum pg j best pre,
+  let st := fold_left (reg_step FOps x y msl s n sum pg j) pre (mkRS 0%float 0 None best) in
+  let rows := C05.ProofsFloatSum.counted s pre in
+  let W := rs_cnt st in
+  let tm := odiv FOps (rs_sum st) (ofn FOps W) in
+  (forall i, In i rows -> (Z.of_nat (nth i s 0%nat) < 2 ^ 53)%Z) -> (Z.of_nat W < 2 ^ 53)%Z -> 0 < W ->
+  FloatError.ffin tm ->
+  let S := FloatError.Rsuml (map (C05.ProofsFloatSum.wy_exact y s) rows) in
+  let Sabs := FloatError.Rsumabs (map (C05.ProofsFloatSum.wy_exact y s) rows) in
+  let m := length rows in
+  let E := (FloatError.Eu m * (Sabs + INR m * FloatError.eta64) + INR m * FloatError.eta64)%R in
+  W = C05.ProofsFloatSum.wsum s rows /\
+  (Rabs (FloatError.FR (rs_sum st) - S) <= E)%R /\
+  (Rabs (FloatError.FR tm - S / INR W) <= (FloatError.u64 * (Sabs + E) + E) / INR W + FloatError.eta64)%R.
+Proof. exact C05.ProofsFloatSum.reg_true_mean_float_error. Qed.
+
+(* and the root output of fit_regressor_with_order / fit_weak_learner *)
+Theorem C05_root_mean_float_error : forall (y : list PrimFloat.float) (s : list nat),
+  let rows := seq 0 (Nat.min (length s) (length y)) in
+  let W := fst (root_stats FOps y s) in
+  let root := odiv FOps (snd (root_stats FOps y s)) (ofn FOps W) in
+  (forall i, In i rows -> (Z.of_nat (nth i s 0%nat) < 2 ^ 53)%Z) -> (Z.of_nat W < 2 ^ 53)%Z -> 0 < W ->
+  FloatError.ffin root ->
+  let S := FloatError.Rsuml (map (C05.ProofsFloatSum.wy_exact y s) rows) in
+  let Sabs := FloatError.Rsumabs (map (C05.ProofsFloatSum.wy_exact y s) rows) in
+  let m := length rows in
+  let E := (FloatError.Eu m * (Sabs + INR m * FloatError.eta64) + INR m * FloatError.eta64)%R in
+  W = C05.ProofsFloatSum.wsum s rows /\
+  (Rabs (FloatError.FR root - S / INR W) <= (FloatError.u64 * (Sabs + E) + E) / INR W + FloatError.eta64)%R.
+Proof. exact C05.ProofsFloatSum.root_mean_float_error. Qed.
+
+(* the hypotheses are satisfiable: inexact targets 0.1, 0.2, 0.3 with weights 1, 2, 1 *)
+Example C05_root_mean_float_instance :
+  let y := [0x1.999999999999ap-4; 0x1.999999999999ap-3; 0x1.3333333333333p-2]%float in
+  let s := [1; 2; 1] in
+  (forall i, In i (seq 0 (Nat.min (length s) (length y))) -> (Z.of_nat (nth i s 0%nat) < 2 ^ 53)%Z) /\
+  fst (root_stats FOps y s) = 4 /\
+  FloatError.ffin (odiv FOps (snd (root_stats FOps y s)) (ofn FOps (fst (root_stats FOps y s)))).
+Proof.
+  cbv zeta. split; [|split; vm_compute; reflexivity].
+  intros i Hi. cbn in Hi. destruct Hi as [<-|[<-|[<-|[]]]]; cbn; lia.
 Qed.
